@@ -76,24 +76,31 @@ def h_1d(ctx, n, m, scan, units, norm):
             _check_stable(ctx, [table[i, j] for i in range(n)], stable[j], n, 'grid point %d:' % j)
 
 
-def h_2d(ctx, n, m1, m2, units, norm):
+def h_2d(ctx, n, m1, m2, units, norm, order='TP'):
+    """order: which quantity runs along the first / second grid axis"""
     from pmutt.reaction.phasediagram import PhaseDiagram
     from pmutt import constants as c
     rx, parts = _reactions(ctx, n)
     nf = [ctx.real('norm%d' % i, 0.1, 10) for i in range(n)] if norm else None
     pd = PhaseDiagram(reactions=rx, norm_factors=nf)
-    Ts = _grid(ctx, 'T', m1, 50, 5000)
-    Ps = _grid(ctx, 'P', m2, 1e-4, 1e3)
-    table, stable = pd.get_GoRT_2D(x1_name='T', x1_values=list(Ts), x2_name='P', x2_values=list(Ps), G_units=units)
+    if order == 'TP':
+        Ts = _grid(ctx, 'T', m1, 50, 5000)
+        Ps = _grid(ctx, 'P', m2, 1e-4, 1e3)
+        table, stable = pd.get_GoRT_2D(x1_name='T', x1_values=list(Ts), x2_name='P', x2_values=list(Ps), G_units=units)
+    else:
+        Ps = _grid(ctx, 'P', m1, 1e-4, 1e3)
+        Ts = _grid(ctx, 'T', m2, 50, 5000)
+        table, stable = pd.get_GoRT_2D(x1_name='P', x1_values=list(Ps), x2_name='T', x2_values=list(Ts), G_units=units)
     ctx.true('table shape (reactions, n1, n2)', tuple(table.shape) == (n, m1, m2))
     ctx.true('stable phases shape (n1, n2)', tuple(stable.shape) == (m1, m2))
     for i in range(n):
         for j in range(m1):
             for k in range(m2):
-                want = _dG(parts, i, Ts[j], Ps[k]) / (nf[i] if norm else 1.0)
+                T_, P_ = (Ts[j], Ps[k]) if order == 'TP' else (Ts[k], Ps[j])
+                want = _dG(parts, i, T_, P_) / (nf[i] if norm else 1.0)
                 if units:
-                    want = want * c.R(units + '/K') * Ts[j]
-                ctx.eq('table[%d,%d,%d] = reaction value / norm' % (i, j, k), table[i, j, k], want)
+                    want = want * c.R(units + '/K') * T_
+                ctx.eq('table[%d,%d,%d] = reaction value / norm%s' % (i, j, k, ' * R T at that grid point' if units else ''), table[i, j, k], want)
     if tuple(stable.shape) == (m1, m2):
         for j in range(m1):
             for k in range(m2):
@@ -177,6 +184,10 @@ def groups(tier):
         for units in (None, 'eV'):
             g.append(dict(name='2D/%dx%dx%d/units=%s' % (n, m1, m2, units), harness=h_2d,
                           params=dict(n=n, m1=m1, m2=m2, units=units, norm=True), max_paths=5000))
+    for (n, m1, m2) in ((1, 1, 2), (2, 2, 2)):
+        for units in (None, 'eV'):
+            g.append(dict(name='2D/%dx%dx%d/units=%s/T-on-second-axis' % (n, m1, m2, units), harness=h_2d,
+                          params=dict(n=n, m1=m1, m2=m2, units=units, norm=True, order='PT'), max_paths=5000))
     g.append(dict(name='2D/2x2x2/default-norm', harness=h_2d, params=dict(n=2, m1=2, m2=2, units=None, norm=False), max_paths=3000))
     for (n, m) in ((2, 2), (3, 2), (2, 3)) if not th else ((2, 2), (3, 2), (2, 3), (3, 3)):
         g.append(dict(name='1D-vs-2D/%dx%d' % (n, m), harness=h_1d_vs_2d, params=dict(n=n, m=m, units=None), max_paths=5000))
